@@ -21,19 +21,23 @@ def isSig : Obs → Bool | .misc _ _ => true | _ => false
 def anyFault (c : Cfg) : Bool :=
   c.srcOpenFails || c.dstOpenFails || c.seekFails || c.readFailAt.isSome || c.writeFailAt.isSome
 
+/-- the position of the first byte copied: `start()` seeks only to a range start > 0, otherwise
+    the copy begins where the source stands -/
+def firstPos (c : Cfg) : Nat := if rangeFrom c > 0 then (rangeFrom c).toNat else c.prePos
+
 def wanted (c : Cfg) : Bytes :=
   match c.range with
-  | none => c.src
+  | none => c.src.drop c.prePos
   | some (f, t) =>
     if f < 0 then [] else
-    let f' := f.toNat
-    if t < 0 then c.src.drop f' else
-    if t < f then [] else (c.src.drop f').take (t.toNat + 1 - f')
+    let p := if f > 0 then f.toNat else c.prePos
+    if t < 0 then c.src.drop p else
+    if t < p then [] else (c.src.drop p).take (t.toNat + 1 - p)
 
 def rangeOK (c : Cfg) : Bool :=
   match c.range with
-  | some (f, t) => f ≥ 0 && (t ≥ f || t == -1) && f ≤ c.src.length
-  | none => true
+  | some (f, t) => f ≥ 0 && (t ≥ firstPos c || t == -1) && firstPos c ≤ c.src.length
+  | none => c.prePos ≤ c.src.length
 
 /-! ### counts and written bytes -/
 
@@ -375,5 +379,10 @@ theorem step_ext (c : Cfg) (s : St) (e : Ev) : Ext s (step c s e) := by
     · split
       · exact onReadChannelFinished_ext c s
       · exact Ext.refl s
+  | arriveQ b =>
+    simp only [step]
+    split
+    · exact Ext.refl s
+    · exact ⟨[], by simp, by simp⟩
 
 end Qhttp.C14L
